@@ -44,6 +44,7 @@ struct WorldState {
   step: u64,
   timers: Vec<Timer>,
   timer_log: Vec<TimerReq>,
+  timers_this_step: usize,
   // gates
   next_gate: u64,
   ready: Vec<(u64, Waker)>,
@@ -62,6 +63,18 @@ fn new_vtimer(d: Duration) -> BoxFuture<'static, ()> {
     let t = to_ticks(d);
     let due = w.now + t;
     let (at, step) = (w.now, w.step);
+    // a periodic task whose period is zero re-arms and fires inside one poll for
+    // ever (on a real executor: a task that never yields). Reported instead of
+    // exhausting memory.
+    if w.timer_log.last().map_or(false, |r| r.step == step && r.at == at) {
+      w.timers_this_step += 1;
+    } else {
+      w.timers_this_step = 0;
+    }
+    assert!(
+      w.timers_this_step < 50_000,
+      "runaway: 50000 timers requested at one instant within one scheduler step (a zero-length period?), last duration {d:?}"
+    );
     w.timer_log.push(TimerReq { at, ticks: t, step, dur: d });
     w.timers.push(Timer { due, waker: None, done: false });
     w.timers.len() - 1
